@@ -69,6 +69,16 @@ theorem xml_parent_links (x : Bytes) (n : Node) (h : decode x = .node n) :
 theorem xml_root_parent_null (x : Bytes) (n : Node) (h : decode x = .node n) : n.parent = none :=
   decode_root_parent true x n h
 
+/-- a node `c` of a returned tree to which a handle is kept while the tree itself is released (`survivor`:
+    `~_Xml` of its container clears the raw parent pointer, commit c581d77 — before it `c.parent()` read
+    freed memory) has a null parent, and every parent link below it still holds -/
+theorem xml_survivor_links (x : Bytes) (n c : Node) (h : decode x = .node n) (hc : c ∈ preorder n) :
+    (survivor c).parent = none ∧
+      ∀ e, Within e (survivor c) → ∀ d ∈ children e, d.parent = some e.id := by
+  refine ⟨parent_clearParent c, links_of_linksOK ?_⟩
+  rw [linksOK_survivor]
+  exact within_links (mem_preorder_within n c hc) (decode_links true x n h)
+
 /-- the identities of the nodes of a returned tree (`ids`: the node, then its descendants in document
     order) are pairwise distinct — so "parent = identity of the container" in `xml_parent_links` names
     exactly one node of the tree -/
